@@ -260,6 +260,24 @@ func (d *dbm) noteTerm(e ast.Expr) {
 			}
 		}
 	}
+	// a helper of the module that reduces an index below its size parameter: 0 <= r, and r < size when size is
+	// known to exceed every constant the helper may return instead
+	if c, isCall := base.(*ast.CallExpr); isCall && d.g != nil {
+		if fn := calleeOf(d.info, c); fn != nil {
+			if callee := d.g.P.FuncOf(fn); callee != nil && callee.Pkg == d.g.P.Root {
+				if rb := d.g.P.resultBelowParam(callee); rb != nil && rb.paramIdx < len(c.Args) {
+					d.addLE(zeroNode, 0, t, 0)
+					arg := c.Args[rb.paramIdx]
+					if at, ak, ok := d.term(arg); ok {
+						d.noteTerm(arg)
+						if d.le(zeroNode, int(rb.maxConst)+1, at, ak) {
+							d.addLE(t, 1, at, ak)
+						}
+					}
+				}
+			}
+		}
+	}
 	if id, isId := base.(*ast.Ident); isId {
 		d.noteVar(id)
 	}
